@@ -12,7 +12,8 @@ import Uquic.Generated.Protocol
 namespace Uquic.Model.Streams
 open Uquic.Gen
 
-abbrev SID := Int
+/-- stream ids are plain `Int`s (a notation, so that `omega` sees `Int` equalities) -/
+notation "SID" => Int
 
 inductive Persp | client | server
 deriving DecidableEq, Repr
